@@ -230,6 +230,10 @@ def finish(ctx: Ctx, res: Result, t0: float) -> int:
     for k, what in sorted(seen_known.items()):
         print(f"KNOWN-FINDING: property={ctx.prop} {k}: {known[k]}")
     rc = 0
+    if new:
+        os.makedirs(REPLAY_DIR, exist_ok=True)
+        with open(os.path.join(REPLAY_DIR, f"{ctx.prop}-keys.json"), "w") as f:
+            json.dump({k: v.what for k, v in sorted(new.items())}, f, indent=1)
     for n, (k, v) in enumerate(sorted(new.items())):
         if n >= 20:
             print(f"... {len(new) - 20} more distinct violations suppressed")
